@@ -113,6 +113,24 @@ pub fn run(out: &mut Out, tier: &str, seed: u64) {
         skip_entries(out, &input);
         full_entries(out, &input);
     }
+    // \u escapes at every boundary of the surrogate ranges: alone, as first and as second half of a
+    // pair, in a value and in a key, at the end of the text and followed by more text
+    const EDGES: [&str; 12] = ["d7ff", "d800", "d801", "dbfe", "dbff", "dc00", "dc01", "dffe", "dfff", "e000", "DFFF", "Dc00"];
+    for a in EDGES {
+        let mut lits: Vec<String> = vec![format!("\\u{a}")];
+        for b in EDGES {
+            lits.push(format!("\\u{a}\\u{b}"));
+        }
+        lits.push(format!("\\u{a}\\n"));
+        lits.push(format!("x\\u{a}x"));
+        for l in lits {
+            for doc in [format!("\"{l}\""), format!("[\"{l}\",1]"), format!("{{\"{l}\":\"{l}\"}}"), format!(" {{\"k\": [\"{l}\"]}} ")] {
+                out.count("stream:surrogate-edges");
+                skip_entries(out, doc.as_bytes());
+                full_entries(out, doc.as_bytes());
+            }
+        }
+    }
     // nesting depth around the limits
     let lim = sonic_rs::verif_hooks::parser::MAX_NESTED_DEPTH;
     let slim = sonic_rs::verif_hooks::de::MAX_ALLOWED_DEPTH;
